@@ -840,10 +840,14 @@ class CSSCalc(CSSFunction):
         types = self._prods  # rename!
 
         _operator = Choice(
-            Prod(
-                name='Operator */',
-                match=lambda t, v: v in '*/',
-                toSeq=lambda t, tokens: (t[0], t[1]),
+            Sequence(
+                Prod(
+                    name='Operator */',
+                    match=lambda t, v: v in '*/',
+                    toSeq=lambda t, tokens: (t[0], t[1]),
+                ),
+                # "1px* 2": white space may follow also if none precedes
+                PreDef.S(optional=True),
             ),
             Sequence(
                 PreDef.S(),
